@@ -456,7 +456,7 @@ func appendAliasing(c *Check, fs *FuncSrc) (bad []string, n int) {
 	ast.Inspect(fs.Decl.Body, func(nd ast.Node) bool {
 		if ap := isAppend2(info, nd); ap != nil {
 			n++
-			if !freshExpr(ap.Args[0]) {
+			if !freshExpr(ap.Args[0]) && !ownedResultField(c, info, defs, params, ap.Args[0]) {
 				bad = append(bad, c.P.pos(ap.Pos())+": "+c.P.abbrev(fs.Obj.FullName())+" appends to "+types.ExprString(ap.Args[0])+", whose backing array may be shared with data the caller still holds")
 			}
 		}
@@ -478,4 +478,49 @@ func isAppend2(info *types.Info, nd ast.Node) *ast.CallExpr {
 		return call
 	}
 	return nil
+}
+
+// ownedResultField: e is a field of a verdict object (a struct type of the module's result
+// package) reached from a local - not a parameter - whose every definition is the result of a
+// statically resolved call of a function of this module. Verdict objects are built per check by
+// the per-method checkers (the closed set of constructors of O-C06.1), so nobody else holds the
+// slice the caller of the checker appends to.
+func ownedResultField(c *Check, info *types.Info, defs map[types.Object][]ast.Expr, params map[types.Object]bool, e ast.Expr) bool {
+	sel, ok := ast.Unparen(e).(*ast.SelectorExpr)
+	if !ok {
+		return false
+	}
+	s := info.Selections[sel]
+	if s == nil || s.Kind() != types.FieldVal {
+		return false
+	}
+	fld, _ := s.Obj().(*types.Var)
+	if fld == nil || fld.Pkg() == nil || fld.Pkg().Path() != c.P.ModPath+"/revocation/result" {
+		return false
+	}
+	id, ok := ast.Unparen(sel.X).(*ast.Ident)
+	if !ok {
+		return false
+	}
+	o := info.Uses[id]
+	if o == nil || params[o] || len(defs[o]) == 0 {
+		return false
+	}
+	if v, ok := o.(*types.Var); !ok || isPkgLevel(v) {
+		return false
+	}
+	for _, d := range defs[o] {
+		call, ok := ast.Unparen(d).(*ast.CallExpr)
+		if !ok {
+			return false
+		}
+		fn := typeutil.StaticCallee(info, call)
+		if fn == nil || fn.Pkg() == nil || !strings.HasPrefix(fn.Pkg().Path(), c.P.ModPath) {
+			return false
+		}
+		if sig := fn.Type().(*types.Signature); sig.Recv() != nil && types.IsInterface(sig.Recv().Type()) {
+			return false
+		}
+	}
+	return true
 }
